@@ -153,6 +153,7 @@ def eval_lab(case, tier):
                                  DD=numpy.zeros((9, 9, 3)),
                                  rho0=numpy.zeros((9, 9), dtype=complex))
     stub.rho0[0, 0] = STUB_RHO0
+    obs = [0.0, 0.0]                   # digest of the observed prefactors
     for sides in SIDES[tier]:
         trans = _stub_scheme(sides)
         sref = ISO.diagram_sign(sides)
@@ -177,6 +178,9 @@ def eval_lab(case, tier):
         err = numpy.abs(got - exp) / scale
         err = numpy.where(numpy.isfinite(err), err, numpy.inf)
         worst = max(worst, float(numpy.max(err)))
+        fin = numpy.where(numpy.isfinite(got), got, 0.0)
+        obs[0] += float(numpy.sum(fin).real) * (1 + len(aux) % 7 + SIDES[tier].index(sides))
+        obs[1] += float(numpy.sum(numpy.abs(fin)))
         if not numpy.max(err) <= TOL:
             # the whole table of this side pattern has the opposite sign <=> sign defect
             flipped = bool(numpy.max(numpy.abs(got + exp) / scale) <= TOL)
@@ -191,8 +195,7 @@ def eval_lab(case, tier):
                              {"dipoles": list(dt), "sides": list(sides),
                               "F4eM4": numpy.asarray(lab.F4eM4).tolist(), "F4n": aux[dt]})
     return {"nontrivial": bool(numpy.max(numpy.abs(tab)) > 1e-9),
-            "outcome": ["lab", name4, round(float(numpy.sum(tab)), 9),
-                        round(float(numpy.sum(numpy.abs(tab))), 9)],
+            "outcome": ["lab", name4, round(obs[0], 9), round(obs[1], 9)],
             "violations": list(viol.values()), "n": nev - 1,
             "info": {"dev": {"pref-lab": worst}, "unbuildable": 0}}
 
